@@ -77,9 +77,10 @@ theorem asg_foldG (dn : String) : ∀ (as : List (XAtom × XAtom)) (s : St) (d d
 structure WModA where
   base : WModI
   asgs : List (XAtom × XAtom)
+  params : Params
 
 def WModA.toModule (m : WModA) : Module :=
-  ⟨m.base.name, false, m.base.attrs, [], m.base.ports.map (fun p => ⟨p.name, none, none, none⟩),
+  ⟨m.base.name, false, m.base.attrs, m.params, m.base.ports.map (fun p => ⟨p.name, none, none, none⟩),
    m.base.ports.map PDecl.item ++ m.base.wires.map FWire.item ++ m.asgs.map (fun a => Item.assign a.1 a.2) ++
      m.base.insts.map NInst.item⟩
 
@@ -90,26 +91,32 @@ theorem elabModule_acount (s : St) (M : Module) (hp : M.prim = false) :
   unfold elabModule St.ensure St.find getDef
   simp only [hp, Bool.false_eq_true, if_false]
   cases top <;> cases hf : defs.find? (fun d => d.name == M.name) <;> simp only [St.find, hf] <;> rfl
-/-- **late_prefix.**  The part of `elabModule` before the assigns and instances, for a work module declared late: entry,
-    header on the ports the instances created, reorder, body port declarations, nets — leaving the rest of the items. -/
-theorem late_prefix (s : St) (name : String) (attrs : Attrs) (ports : List PDecl) (wires : List FWire) (rest : List Item)
-    (t : String) (L d1 d2 d3 : Def) (n1 n2 n3 : Nat) (ops : List (Nat × Nat))
+/-- the definition of a work module on entry: library `work`, the parameters of the header merged in -/
+def entryDef (L : Def) (params : Params) : Def := { L with lib := some "work", params := mergeParams L.params params }
+
+theorem withNext_self (s : St) : withNext s s.next = s := by cases s; rfl
+
+/-- **late_prefix.**  The part of `elabModule` before the assigns and instances, for a work module declared late: entry
+    (library, module parameters), header on the ports the instances created, reorder, body port declarations, nets —
+    leaving the rest of the items. -/
+theorem late_prefix (s : St) (name : String) (attrs : Attrs) (params : Params) (ports : List PDecl) (wires : List FWire)
+    (rest : List Item) (t : String) (L d1 d2 d3 : Def) (n1 n2 n3 : Nat) (ops : List (Nat × Nat))
     (hwf : TableWF s) (hL : Has s name L) (htop : s.top = some t) (hac : s.acount = 0)
     (hlib : L.lib = none) (hi : L.insts = []) (hnames : L.ports.map (·.name) = (ports.map (·.name)).map some)
     (hnd : (ports.map (·.name)).Nodup)
-    (h1 : foldLocal hdrStepL { L with lib := some "work" } s.next (ports.map (·.name)) = some (d1, n1))
+    (h1 : foldLocal hdrStepL (entryDef L params) s.next (ports.map (·.name)) = some (d1, n1))
     (h2 : foldDeclA d1 n1 ports = some (d2, n2, ops)) (h3 : foldLocal wireStep d2 n2 wires = some (d3, n3)) :
-    ∃ S3, elabModule s ⟨name, false, attrs, [], ports.map (fun p => ⟨p.name, none, none, none⟩),
+    ∃ S3, elabModule s ⟨name, false, attrs, params, ports.map (fun p => ⟨p.name, none, none, none⟩),
         ports.map PDecl.item ++ wires.map FWire.item ++ rest⟩ =
         (do let s' ← rest.foldlM (fun s it => elabItem s name false it) S3
             pure (if attrs.isEmpty then s' else s'.upd name (fun d => { d with attrs := some attrs }))) ∧
       TableWF S3 ∧ Has S3 name d3 ∧ others S3 name = (others s name).map (fun x => padOpsD x name ops) ∧
       S3.next = n3 ∧ S3.top = some t ∧ S3.acount = 0 ∧ S3.pending = s.pending ∧
       S3.defs = s.defs.map (fun x => if x.name == name then d3 else padOpsD x name ops) ∧ d3.name = name := by
-  generalize hL1 : ({ L with lib := some "work" } : Def) = L1 at h1
-  have hL1n : L1.name = L.name := by rw [← hL1]
+  generalize hL1 : entryDef L params = L1 at h1
+  have hL1n : L1.name = L.name := by rw [← hL1]; rfl
   have hL1i : L1.insts = [] := by rw [← hL1]; exact hi
-  have hL1p : L1.ports = L.ports := by rw [← hL1]
+  have hL1p : L1.ports = L.ports := by rw [← hL1]; rfl
   have hLmem : L ∈ s.defs := hL.1
   have hens : s.ensure name = s := by unfold St.ensure; rw [hL.find]
   have hs1 : ∀ g : Def → Def, g L = L1 → s.upd name g = s.put name L1 s.next := by
@@ -118,7 +125,7 @@ theorem late_prefix (s : St) (name : String) (attrs : Attrs) (ports : List PDecl
     rw [hg] at this; rw [← this]; cases s; rfl
   generalize hS1 : s.put name L1 s.next = S1
   have hS1wf : TableWF S1 := by
-    rw [← hS1, ← hs1 (fun d => { d with lib := some "work" }) hL1]
+    rw [← hS1, ← hs1 (fun d => entryDef d params) hL1]
     exact upd_meta_wf s name _ (fun _ => rfl) (fun _ => rfl) (fun _ => rfl) (fun _ => rfl) hwf
   have hH1 : Has S1 name L1 := by rw [← hS1]; exact hL.put L1 _ hL1n
   have hR1 : RowsFull S1 name L1.ports.length := by
@@ -154,15 +161,37 @@ theorem late_prefix (s : St) (name : String) (attrs : Attrs) (ports : List PDecl
     foldlM_wf _ (fun a b c hw hh => elabItem_wf a c name false b.item hw hh) _ _ _ hwf3a w1
   refine ⟨(padOps s name ops).put name d3 n3, ?_, hwf3, hHp.put d3 _ (hd3n.trans hL.2.1.symm),
     others_put_padOps s name d3 n3 ops hd3n, rfl, ?_, ?_, ?_, defs_put_padOps s name d3 n3 ops, hd3n⟩
-  · unfold elabModule
+  · -- the state on entry
+    have hentry : ∀ (Sx : St), Sx = s.upd name (fun d => { d with lib := some "work" }) →
+        (if params.isEmpty = true then ({ (if Sx.top.isNone = true then { Sx with top := some name } else Sx) with acount := 0 } : St)
+         else ({ (if Sx.top.isNone = true then { Sx with top := some name } else Sx) with acount := 0 } : St).upd name
+           (fun d => { d with params := mergeParams d.params params })) = S1 := by
+      intro Sx hSx
+      have hSx' : Sx = s.put name { L with lib := some "work" } s.next := by
+        rw [hSx]
+        have := upd_eq_put s name L (fun d => { d with lib := some "work" }) s.next hL
+        rw [← this]; cases s; rfl
+      have htx : Sx.top = some t := by rw [hSx']; exact htop
+      have hax : Sx.acount = 0 := by rw [hSx']; exact hac
+      have hSe : ({ (if Sx.top.isNone = true then { Sx with top := some name } else Sx) with acount := 0 } : St) = Sx := by
+        rw [htx]; exact acount_eta Sx hax
+      rw [hSe]
+      split
+      · rename_i he
+        have hp : params = [] := List.isEmpty_iff.mp he
+        rw [hSx', ← hS1, ← hL1, hp]
+        rfl
+      · have hHx : Has Sx name { L with lib := some "work" } := by rw [hSx']; exact hL.put _ _ rfl
+        have := upd_eq_put Sx name _ (fun d => { d with params := mergeParams d.params params }) Sx.next hHx
+        have hx : Sx.upd name (fun d => { d with params := mergeParams d.params params }) =
+            withNext (Sx.upd name (fun d => { d with params := mergeParams d.params params })) Sx.next := by
+          cases Sx; rfl
+        rw [hx, this, hSx', St.put_put s name { L with lib := some "work" } _ _ _ hL.2.1, ← hS1, ← hL1]
+        rfl
+    unfold elabModule
     simp only [hens, bind, Except.bind, getDef_has hL, hlib, Option.isSome_none, Bool.false_eq_true, if_false,
-      List.isEmpty_nil, if_true, List.foldlM_map, List.map_map, Function.comp_def, pure, Except.pure, List.foldlM_append]
-    rw [hs1 _ (by rw [← hL1]), hS1]
-    have htop1 : S1.top = some t := by rw [← hS1]; exact htop
-    have hac1 : S1.acount = 0 := by rw [← hS1]; exact hac
-    have hS1e : ({ (if S1.top.isNone = true then { S1 with top := some name } else S1) with acount := 0 } : St) = S1 := by
-      rw [htop1]; exact acount_eta S1 hac1
-    rw [hS1e]
+      List.foldlM_map, List.map_map, Function.comp_def, pure, Except.pure, List.foldlM_append]
+    rw [hentry _ rfl]
     have g1' : List.foldlM (fun s (p : PDecl) => headerPort s name ⟨p.name, none, none, none⟩) S1 ports =
         .ok (s.put name d1 n1) := by
       have := g1; rwa [List.foldlM_map] at this
@@ -198,8 +227,8 @@ theorem attrs_fin (S4 : St) (name : String) (attrs : Attrs) (d4 : Def) (hwf : Ta
 def buildLateWA (L : Def) (ls : List Def) (n : Nat) (m : WModA) (topName : String) :
     Option (Def × List Def × Nat × List (Nat × Nat)) :=
   if L.lib = none ∧ L.insts = [] ∧ L.ports.map (·.name) = (m.base.ports.map (·.name)).map some ∧
-      (m.base.ports.map (·.name)).Nodup ∧ m.base.insts.all (fun i => i.mod != topName) = true then
-    match foldLocal hdrStepL { L with lib := some "work" } n (m.base.ports.map (·.name)) with
+      (m.base.ports.map (·.name)).Nodup ∧ m.base.insts.all (fun i => i.mod != topName) = true ∧ L.params = [] then
+    match foldLocal hdrStepL (entryDef L m.params) n (m.base.ports.map (·.name)) with
     | none => none
     | some r1 =>
       match foldDeclA r1.1 r1.2 m.base.ports with
@@ -246,8 +275,8 @@ theorem elabModule_lateWA (s : St) (m : WModA) (t : String) (L D : Def) (ls' : L
   unfold buildLateWA at hb
   split at hb
   · rename_i hc
-    obtain ⟨hlib, hi, hnames, hnd, hmods⟩ := hc
-    cases h1 : foldLocal hdrStepL { L with lib := some "work" } s0.next (m.base.ports.map (·.name)) with
+    obtain ⟨hlib, hi, hnames, hnd, hmods, _⟩ := hc
+    cases h1 : foldLocal hdrStepL (entryDef L m.params) s0.next (m.base.ports.map (·.name)) with
     | none => simp [h1] at hb
     | some r1 =>
       obtain ⟨d1, n1⟩ := r1
@@ -276,7 +305,7 @@ theorem elabModule_lateWA (s : St) (m : WModA) (t : String) (L D : Def) (ls' : L
                 simp only [h4, Option.some.injEq, Prod.mk.injEq] at hb
                 obtain ⟨e1, e2, e3, e4⟩ := hb
                 subst e1 e2 e3 e4
-                obtain ⟨S3, p1, p2, p3, p4, p5, p6, p7, p8, p9, p10⟩ := late_prefix s0 m.base.name m.base.attrs m.base.ports
+                obtain ⟨S3, p1, p2, p3, p4, p5, p6, p7, p8, p9, p10⟩ := late_prefix s0 m.base.name m.base.attrs m.params m.base.ports
                   m.base.wires (m.asgs.map (fun a => Item.assign a.1 a.2) ++ m.base.insts.map NInst.item) t L d1 d2 d3 n1 n2 n3
                   ops2 hwf0 hL0 htop0 hac0 hlib hi hnames hnd h1 h2 h3
                 -- assigns
@@ -296,7 +325,7 @@ theorem elabModule_lateWA (s : St) (m : WModA) (t : String) (L D : Def) (ls' : L
                 obtain ⟨s', k1, k2, k3, k4, k5, k6, k7, k8, k9⟩ := attrs_fin S4 m.base.name m.base.attrs d4 i2 i3
                 refine ⟨s', ?_, k2, k3, by rw [k4, i4], by rw [k5, i5, a5, p5], by rw [k6, i6, a6, p6, htop0],
                   by rw [k8, i8, a8, p8], newA ++ newI, by rw [in1, a4, an1, p4, List.append_assoc], ?_⟩
-                · have hrun : elabModule s0 m.toModule = elabModule s0 ⟨m.base.name, false, m.base.attrs, [],
+                · have hrun : elabModule s0 m.toModule = elabModule s0 ⟨m.base.name, false, m.base.attrs, m.params,
                       m.base.ports.map (fun p => ⟨p.name, none, none, none⟩),
                       m.base.ports.map PDecl.item ++ m.base.wires.map FWire.item ++
                         (m.asgs.map (fun a => Item.assign a.1 a.2) ++ m.base.insts.map NInst.item)⟩ := by
@@ -333,19 +362,52 @@ theorem elabModule_lateWA (s : St) (m : WModA) (t : String) (L D : Def) (ls' : L
   · cases hb
 /-! ### the top module (first in the file) with assigns -/
 
+/-- `elabModule` on a module whose name is new to the table, module parameters included -/
+theorem elabModule_eq_tailGP (s : St) (m : Module) (hfresh : s.find m.name = none) :
+    elabModule s m = elabTailG (if m.params.isEmpty then afterEntry s m.name m.prim else
+      (afterEntry s m.name m.prim).upd m.name (fun d => { d with params := mergeParams d.params m.params })) m := by
+  have hbase := find_none_names s m.name hfresh
+  have hens : s.ensure m.name = { s with defs := s.defs ++ [⟨m.name, none, false, [], none, [], [], []⟩] } := by
+    unfold St.ensure; rw [hfresh]
+  have hE1 : Has ({ s with defs := s.defs ++ [⟨m.name, none, false, [], none, [], [], []⟩] } : St) m.name
+      ⟨m.name, none, false, [], none, [], [], []⟩ := Has_last _ s.defs _ rfl hbase
+  by_cases he : m.params.isEmpty = true
+  · unfold elabModule
+    simp only [hens, bind, Except.bind, getDef_has hE1, Option.isSome_none, Bool.false_eq_true, if_false, he, if_true]
+    unfold elabTailG afterEntry
+    simp only [bind, Except.bind]
+    rfl
+  · unfold elabModule
+    simp only [hens, bind, Except.bind, getDef_has hE1, Option.isSome_none, Bool.false_eq_true, if_false, he]
+    unfold elabTailG afterEntry
+    simp only [bind, Except.bind]
+    rfl
+
+/-- the definition of the first module of a file on entry -/
+def topDef (name : String) (params : Params) : Def := ⟨name, some "work", false, mergeParams [] params, none, [], [], []⟩
+
 /-- the part of `elabModule` before the assigns and instances for the FIRST module of a file -/
-theorem top_prefix (name : String) (ports : List PDecl) (wires : List FWire) (d3 : Def) (n3 : Nat)
-    (h3 : buildW3 ⟨name, some "work", false, [], none, [], [], []⟩ 0 ports wires = some (d3, n3)) :
+theorem top_prefix (name : String) (params : Params) (ports : List PDecl) (wires : List FWire) (d3 : Def) (n3 : Nat)
+    (h3 : buildW3 (topDef name params) 0 ports wires = some (d3, n3)) :
     (∀ (attrs : Attrs) (rest : List Item),
-      elabModule ⟨[], 0, none, 0, []⟩ ⟨name, false, attrs, [], ports.map (fun p => ⟨p.name, none, none, none⟩),
+      elabModule ⟨[], 0, none, 0, []⟩ ⟨name, false, attrs, params, ports.map (fun p => ⟨p.name, none, none, none⟩),
         ports.map PDecl.item ++ wires.map FWire.item ++ rest⟩ =
       (do let s' ← rest.foldlM (fun s it => elabItem s name false it) (S2 d3 [] n3 (some name))
           pure (if attrs.isEmpty then s' else s'.upd name (fun d => { d with attrs := some attrs })))) ∧
     TableWF (S2 d3 [] n3 (some name)) ∧ Has (S2 d3 [] n3 (some name)) name d3 ∧ d3.name = name ∧ d3.insts = [] := by
-  generalize hd0 : (⟨name, some "work", false, [], none, [], [], []⟩ : Def) = d0 at h3
-  have hd0n : d0.name = name := by rw [← hd0]
-  have hs3 : afterEntry ⟨[], 0, none, 0, []⟩ name false = S2 d0 [] 0 (some name) := by
-    rw [← hd0]; exact afterEntry_s0 name
+  generalize hd0 : topDef name params = d0 at h3
+  have hd0n : d0.name = name := by rw [← hd0]; rfl
+  have hs3 : (if params.isEmpty then afterEntry ⟨[], 0, none, 0, []⟩ name false else
+      (afterEntry ⟨[], 0, none, 0, []⟩ name false).upd name (fun d => { d with params := mergeParams d.params params })) =
+      S2 d0 [] 0 (some name) := by
+    rw [afterEntry_s0 name]
+    split
+    · rename_i he
+      have hp : params = [] := List.isEmpty_iff.mp he
+      rw [← hd0, hp]; rfl
+    · have := upd_S2_top (⟨name, some "work", false, [], none, [], [], []⟩ : Def) [] 0 (some name)
+        (fun d => { d with params := mergeParams d.params params }) (by intro l hl; cases hl)
+      rw [this, ← hd0]; rfl
   have hH3 : Has (S2 d0 [] 0 (some name)) name d0 := by
     rw [← hd0n]; exact Has_S2_top d0 [] 0 _ (by intro l hl; cases hl)
   have hN3 : NoRef (S2 d0 [] 0 (some name)) name := by
@@ -354,17 +416,18 @@ theorem top_prefix (name : String) (ports : List PDecl) (wires : List FWire) (d3
     rw [hx, ← hd0] at hi
     cases hi
   obtain ⟨hP, hn3, hi3⟩ := wshape_phases (S2 d0 [] 0 (some name)) name ports wires d0 d3 n3 hH3 hN3
-    (by rw [← hd0]) h3
+    (by rw [← hd0]; rfl) h3
   rw [← hd0n, put_S2 d0 [] 0 _ d3 n3 (by intro l hl; cases hl), hd0n] at hP
   have hd3n : d3.name = name := hn3.trans hd0n
   have key : ∀ (attrs : Attrs) (rest : List Item),
-      elabModule ⟨[], 0, none, 0, []⟩ ⟨name, false, attrs, [], ports.map (fun p => ⟨p.name, none, none, none⟩),
+      elabModule ⟨[], 0, none, 0, []⟩ ⟨name, false, attrs, params, ports.map (fun p => ⟨p.name, none, none, none⟩),
         ports.map PDecl.item ++ wires.map FWire.item ++ rest⟩ =
       (do let s' ← rest.foldlM (fun s it => elabItem s name false it) (S2 d3 [] n3 (some name))
           pure (if attrs.isEmpty then s' else s'.upd name (fun d => { d with attrs := some attrs }))) := by
     intro attrs rest
-    rw [elabModule_eq_tailG _ _ rfl rfl]
-    show elabTailG (afterEntry ⟨[], 0, none, 0, []⟩ name false) _ = _
+    rw [elabModule_eq_tailGP _ _ rfl]
+    show elabTailG (if params.isEmpty then afterEntry ⟨[], 0, none, 0, []⟩ name false else
+      (afterEntry ⟨[], 0, none, 0, []⟩ name false).upd name (fun d => { d with params := mergeParams d.params params })) _ = _
     rw [hs3]
     unfold elabTailG
     have hPh : wPhases (S2 d0 [] 0 (some name)) name ports wires = .ok (S2 d3 [] n3 (some name)) := hP
@@ -394,7 +457,7 @@ theorem top_prefix (name : String) (ports : List PDecl) (wires : List FWire) (d3
 
 /-- the table after the top module with assigns (pure): its definition, the definitions it created, the wire counter -/
 def buildTopA (m : WModA) : Option (Def × List Def × Nat) :=
-  match buildW3 ⟨m.base.name, some "work", false, [], none, [], [], []⟩ 0 m.base.ports m.base.wires with
+  match buildW3 (topDef m.base.name m.params) 0 m.base.ports m.base.wires with
   | none => none
   | some r3 =>
     if (r3.1.cables.map (·.name)).Nodup ∧ m.base.insts.all (fun i => i.mod != m.base.name) = true then
@@ -411,7 +474,7 @@ theorem elabModule_wtopA (m : WModA) (D : Def) (ls : List Def) (n : Nat) (hb : b
     ∃ s', elabModule ⟨[], 0, none, 0, []⟩ m.toModule = .ok s' ∧ TableWF s' ∧ s'.defs = D :: ls ∧ s'.next = n ∧
       s'.top = some m.base.name ∧ s'.pending = [] ∧ Has s' m.base.name D := by
   unfold buildTopA at hb
-  cases h3 : buildW3 ⟨m.base.name, some "work", false, [], none, [], [], []⟩ 0 m.base.ports m.base.wires with
+  cases h3 : buildW3 (topDef m.base.name m.params) 0 m.base.ports m.base.wires with
   | none => simp [h3] at hb
   | some r3 =>
     obtain ⟨d3, n3⟩ := r3
@@ -431,7 +494,7 @@ theorem elabModule_wtopA (m : WModA) (D : Def) (ls : List Def) (n : Nat) (hb : b
           simp only [h4, Option.some.injEq, Prod.mk.injEq] at hb
           obtain ⟨e1, e2, e3⟩ := hb
           subst e1 e2 e3
-          obtain ⟨key, hwf3, hH3, hd3n, hi3⟩ := top_prefix m.base.name m.base.ports m.base.wires d3 n3 h3
+          obtain ⟨key, hwf3, hH3, hd3n, hi3⟩ := top_prefix m.base.name m.params m.base.ports m.base.wires d3 n3 h3
           generalize hS3 : S2 d3 [] n3 (some m.base.name) = S3 at key hwf3 hH3
           have ho3 : others S3 m.base.name = [] := by
             rw [← hS3]; unfold others S2; simp [hd3n]
@@ -452,7 +515,7 @@ theorem elabModule_wtopA (m : WModA) (D : Def) (ls : List Def) (n : Nat) (hb : b
           refine ⟨s', ?_, k2, ?_, by rw [k5, i5, a5, ← hS3]; rfl, by rw [k6, i6, a6, ← hS3]; rfl,
             by rw [k8, i8, a8, ← hS3]; rfl, k3⟩
           · have hrun : elabModule ⟨[], 0, none, 0, []⟩ m.toModule = elabModule ⟨[], 0, none, 0, []⟩ ⟨m.base.name, false,
-                m.base.attrs, [], m.base.ports.map (fun p => ⟨p.name, none, none, none⟩),
+                m.base.attrs, m.params, m.base.ports.map (fun p => ⟨p.name, none, none, none⟩),
                 m.base.ports.map PDecl.item ++ m.base.wires.map FWire.item ++
                   (m.asgs.map (fun a => Item.assign a.1 a.2) ++ m.base.insts.map NInst.item)⟩ := by
               unfold WModA.toModule; rw [List.append_assoc]
